@@ -1568,6 +1568,11 @@ e2_check!(
                     _ => ErrPlan { replace_at: Some(rng.below(2) as u32), ..Default::default() },
                 };
                 s.err_plan.slow_ms = slow;
+                // sometimes an earlier call keeps its hook alive: that must not mute a later escalation
+                let k = s.err_plan.elevate_at.or(s.err_plan.critical_at).unwrap_or(0);
+                if k >= 1 && rng.chance(1, 3) {
+                    s.err_plan.park_at = Some(rng.below(k as u64) as u32);
+                }
             }
             s
         }
